@@ -12,6 +12,11 @@ def col_names(cols: List[Column]) -> str:
     return ', '.join(f'"{c.name}"' for c in cols)
 
 
+def escape_braces(text: str) -> str:
+    '''Keep str.format from reading braces in names and comments as replacement fields.'''
+    return text.replace('{', '{{').replace('}', '}}')
+
+
 def validate_for_sql(model: Reference):
     for col in chain(model.col1, model.col2):
         if col.table is None:
@@ -19,29 +24,32 @@ def validate_for_sql(model: Reference):
 
 
 def generate_inline_sql(model: Reference, source_col: List[Column], ref_col: List[Column]) -> str:
-    result = comment_to_sql(model.comment) if model.comment else ''
-    result += (
-        f'{{c}}FOREIGN KEY ({col_names(source_col)}) '  # type: ignore
+    result = escape_braces(comment_to_sql(model.comment)) if model.comment else ''
+    result += '{c}' + escape_braces(
+        f'FOREIGN KEY ({col_names(source_col)}) '  # type: ignore
         f'REFERENCES {get_full_name_for_sql(ref_col[0].table)} ({col_names(ref_col)})'  # type: ignore
     )
     if model.on_update:
-        result += f' ON UPDATE {model.on_update.upper()}'
+        result += escape_braces(f' ON UPDATE {model.on_update.upper()}')
     if model.on_delete:
-        result += f' ON DELETE {model.on_delete.upper()}'
+        result += escape_braces(f' ON DELETE {model.on_delete.upper()}')
     return result
 
 
 def generate_not_inline_sql(model: Reference, source_col: List['Column'], ref_col: List['Column']):
-    result = comment_to_sql(model.comment) if model.comment else ''
+    result = escape_braces(comment_to_sql(model.comment)) if model.comment else ''
     result += (
-        f'ALTER TABLE {get_full_name_for_sql(source_col[0].table)}'  # type: ignore
-        f' ADD {{c}}FOREIGN KEY ({col_names(source_col)})'
-        f' REFERENCES {get_full_name_for_sql(ref_col[0].table)} ({col_names(ref_col)})' # type: ignore
+        escape_braces(f'ALTER TABLE {get_full_name_for_sql(source_col[0].table)} ADD ')  # type: ignore
+        + '{c}'
+        + escape_braces(
+            f'FOREIGN KEY ({col_names(source_col)})'
+            f' REFERENCES {get_full_name_for_sql(ref_col[0].table)} ({col_names(ref_col)})'  # type: ignore
+        )
     )
     if model.on_update:
-        result += f' ON UPDATE {model.on_update.upper()}'
+        result += escape_braces(f' ON UPDATE {model.on_update.upper()}')
     if model.on_delete:
-        result += f' ON DELETE {model.on_delete.upper()}'
+        result += escape_braces(f' ON DELETE {model.on_delete.upper()}')
     return result + ';'
 
 
@@ -53,7 +61,7 @@ def generate_many_to_many_sql(model: Reference) -> str:
     ref1_sql = generate_not_inline_sql(model, join_table.columns[:n], model.col1)  # type: ignore
     ref2_sql = generate_not_inline_sql(model, join_table.columns[n:], model.col2)  # type: ignore
 
-    result = '\n\n'.join((table_sql, ref1_sql, ref2_sql))
+    result = '\n\n'.join((escape_braces(table_sql), ref1_sql, ref2_sql))
     return result.format(c='')
 
 
